@@ -9,6 +9,8 @@ For each store `r` and each value `x`:
 
 variable {σ : Type}
 
+namespace Conserve
+
 /-- the item a granted get request received (`none` while it is pending) -/
 def gotOf (o : Option Outcome) : Option Int :=
   match o with
@@ -313,3 +315,5 @@ theorem reach_storeCons (body : σ → Resume → Burst ℚ σ) (fuel : Nat) (s0
   rw [tot_wGotItem, tot_wPutItem, tot_wGotItem, tot_wPutItem] at this
   simp only [List.count_append]
   omega
+
+end Conserve
